@@ -64,6 +64,93 @@ func VxH08() {
 	}
 }
 
+// VxH08stream: the same through a process with a streaming output (followed by an ordinary
+// consumer): items leave in arrival order also when a regular file already lies at the
+// streaming output path of a later item.
+func VxH08stream() {
+	n := vxGet("n")
+	vxCmdFree(false, false)
+	vxSetEnv("SCIPIPE_BUFSIZE", "1")
+	wf := scipipe.NewWorkflowCustomLogFile("w", 4, "log/w.log")
+	files := []string{}
+	for i := 0; i < n; i++ {
+		f := "f" + string(rune('0'+i)) + ".txt"
+		files = append(files, f)
+		vxFSPut(f, vxFile, i+1)
+	}
+	src := NewFileSource(wf, "src", files...)
+	p := wf.NewProc("p", "vcmd r:{i:in} w:{os:out}")
+	p.SetOut("out", "{i:in}.s")
+	p.In("in").From(src.Out())
+	c := wf.NewProc("c", "vcmd r:{i:in} w:{o:out}")
+	c.SetOut("out", "{i:in|basename}.c")
+	c.In("in").From(p.Out("out"))
+	rec := vxNewRecorder(wf, "rec")
+	rec.InPort("in").From(c.Out("out"))
+	for i := 1; i < n; i++ {
+		if vxConcreteBool(vxBool("pre" + string(rune('0'+i)))) {
+			vxFSPut(files[i]+".s", vxFile, 100+i)
+		}
+	}
+	vxPreemptBudget(vxGet("preempt"))
+	kind := vxRun(func() { wf.Run() })
+	vxAssert(kind == "returned", "C08.run-returns")
+	vxReach("ran")
+	vxAssert(len(rec.got) == n, "C08.every-output-forwarded-once")
+	for i := range rec.got {
+		if i < n {
+			vxAssert(rec.got[i] == files[i]+".s.c", "C08.arrival-order-kept")
+		}
+	}
+}
+
+// vxCarrierSrc sends two carrier IPs whose sub-streams are filled and closed in the
+// opposite order.
+type vxCarrierSrc struct {
+	scipipe.BaseProcess
+}
+
+func (p *vxCarrierSrc) Run() {
+	defer p.CloseAllOutPorts()
+	c1, _ := scipipe.NewFileIP("carrierA")
+	c2, _ := scipipe.NewFileIP("carrierB")
+	p.OutPort("out").Send(c1)
+	p.OutPort("out").Send(c2)
+	m2, _ := scipipe.NewFileIP("mB.txt")
+	c2.SubStream.Send(m2)
+	close(c2.SubStream.Chan)
+	vxYield()
+	m1, _ := scipipe.NewFileIP("mA.txt")
+	c1.SubStream.Send(m1)
+	close(c1.SubStream.Chan)
+}
+
+// VxH08join: a process with a joined (sub-stream) in-port emits its outputs in the order
+// the carrier IPs arrived, also when the sub-stream of a later carrier is complete first.
+func VxH08join() {
+	vxCmdFree(false, false)
+	vxSetEnv("SCIPIPE_BUFSIZE", "2")
+	wf := scipipe.NewWorkflowCustomLogFile("w", 4, "log/w.log")
+	vxFSPut("mA.txt", vxFile, 1)
+	vxFSPut("mB.txt", vxFile, 2)
+	cs := &vxCarrierSrc{BaseProcess: scipipe.NewBaseProcess(wf, "carriers")}
+	cs.InitOutPort(cs, "out")
+	wf.AddProc(cs)
+	j := wf.NewProc("j", "vcmd r:{i:in|join: r:} w:{o:out}")
+	j.SetOut("out", "{i:in}.j.txt")
+	j.In("in").From(cs.OutPort("out"))
+	rec := vxNewRecorder(wf, "rec")
+	rec.InPort("in").From(j.Out("out"))
+	vxPreemptBudget(vxGet("preempt"))
+	kind := vxRun(func() { wf.Run() })
+	vxAssert(kind == "returned", "C08.run-returns")
+	vxReach("ran")
+	vxAssert(len(rec.got) == 2, "C08.every-output-forwarded-once")
+	if len(rec.got) == 2 {
+		vxAssert(rec.got[0] == "carrierA.j.txt" && rec.got[1] == "carrierB.j.txt", "C08.arrival-order-kept")
+	}
+}
+
 // VxH08fanin: items that reach one in-port from the same upstream keep their relative
 // order through fan-in (two sources into one port).
 func VxH08fanin() {
